@@ -19,6 +19,7 @@ import (
 
 	"github.com/elastos/Elastos.ELA/common"
 	"github.com/elastos/Elastos.ELA/core/types"
+	ctypes "github.com/elastos/Elastos.ELA/core/types/common"
 	dmsg "github.com/elastos/Elastos.ELA/dpos/p2p/msg"
 	"github.com/elastos/Elastos.ELA/elanet/pact"
 	"github.com/elastos/Elastos.ELA/p2p"
@@ -318,6 +319,15 @@ func main() {
 	emitSwitch("dposPeer", "dpos/p2p/peer/peer.go", "Peer.createMessage", "dpos/p2p/peer")
 	emitSwitch("dposNetwork", "dpos/network.go", "createMessage", "dpos")
 	emitSwitch("checkAddr", "p2p/server/server.go", "server.checkAddr", "p2p/server")
+	// messages the node writes but no switch of the node reads (an SPV peer does)
+	mb := msg.NewMerkleBlock(&ctypes.Header{})
+	var mbs []string
+	for _, b := range []byte(mb.CMD()) {
+		mbs = append(mbs, strconv.Itoa(int(b)))
+	}
+	fmt.Printf("def writeOnly : List Entry := [\n  ⟨%s, [%s], \"p2p/msg.MerkleBlock\", \"bloom.NewMerkleBlock(block, filter)\", %s, %d⟩]\n",
+		ex.LeanStr(mb.CMD()), strings.Join(mbs, ", "), ex.LeanStr(mb.CMD()), mb.MaxLength())
+	ex.DefNat("maxTxPerBlock", pact.MaxTxPerBlock)
 	checkSteps("checkAndCreateMessage", "CheckAndCreateMessage")
 	checkSteps("checkAndCreateTxMessage", "CheckAndCreateTxMessage")
 
